@@ -63,12 +63,15 @@ Proof.
     destruct (search_sound U false w r i j c Hsr) as [HM [Hij [Hj [Hc _]]]].
     exists i, j, c. repeat split; try assumption; apply (Hc n a b); assumption. }
   destruct p; try (exact (Hsearch H)).
-  (* PYearMatch *)
-  destruct (match_at U false w r 0) as [[j c]|] eqn:Hm; [|discriminate].
-  injection H as H. subst m.
-  destruct (match_at_sound U false w r 0 j c (Nat.le_0_l _) Hm) as [HM Hc].
+  (* PYearMatch: fullmatch *)
+  destruct (fullmatch_at U w r) as [[j c]|] eqn:Hm; [|discriminate].
+  injection H as H. subst m. unfold fullmatch_at in Hm.
+  destruct (m_caps U false w r 0 [] _ _ (Nat.le_0_l _) Hm) as [j' [c' [HM [Hk Hc]]]].
+  destruct (Nat.eqb j' (length w)); [|discriminate].
+  injection Hk as Hj' Hc'. subst j' c'.
   destruct (M_bounds U false w r 0 j HM) as [Hij Hj].
-  exists 0, j, c. repeat split; try assumption; apply (Hc n a b); assumption.
+  exists 0, j, c. repeat split; try assumption;
+    destruct (Hc n a b H) as [[]|Hsp]; lia.
 Qed.
 
 (* 1. every match object the engine produces satisfies the span contract *)
